@@ -137,6 +137,179 @@ theorem insertInOrder_last (idx : ν → Nat) (n : ν) :
         rw [insertInOrder]; simp [h1, h2]
       rw [hstep, ih last hp.2 hl' he]
 
+/-! #### the binary insertion-point search agrees with the linear one on a document-ordered list -/
+
+theorem getD_lt_of_sorted (is : List Nat) (hs : is.Pairwise (· < ·)) {i j : Nat} (hij : i < j) (hj : j < is.length) :
+    is.getD i 0 < is.getD j 0 := by
+  have hi : i < is.length := by omega
+  rw [← List.getElem_eq_getD (h := hi) 0, ← List.getElem_eq_getD (h := hj) 0]
+  exact List.pairwise_iff_getElem.mp hs i j hi hj hij
+
+theorem getD_le_of_sorted (is : List Nat) (hs : is.Pairwise (· < ·)) {i j : Nat} (hij : i ≤ j) (hj : j < is.length) :
+    is.getD i 0 ≤ is.getD j 0 := by
+  rcases Nat.lt_or_eq_of_le hij with h | h
+  · exact Nat.le_of_lt (getD_lt_of_sorted is hs h hj)
+  · subst h; exact Nat.le_refl _
+
+/-- `p` is the position where `x` belongs in the increasing list `is` (and `x` is not in it) -/
+def IsPos (is : List Nat) (x p : Nat) : Prop :=
+  p ≤ is.length ∧ (∀ i, i < p → is.getD i 0 < x) ∧ (∀ i, p ≤ i → i < is.length → x < is.getD i 0)
+
+/-- outcome of the search: duplicate found, or the right position -/
+def BSGood (is : List Nat) (x : Nat) (r : Bool × Nat) : Prop :=
+  (r.1 = false ∧ x ∈ is) ∨ (r.1 = true ∧ IsPos is x r.2)
+
+theorem bsLoop_done (is : List Nat) (x fuel : Nat) (s : BSState) (h : ¬ s.first ≤ s.last) :
+    bsLoop is x fuel s = s := by
+  cases fuel <;> simp [bsLoop, h]
+
+theorem bsLoop_good (is : List Nat) (hs : is.Pairwise (· < ·)) (x : Nat) :
+    ∀ (fuel : Nat) (s : BSState), s.fInsert = true → s.last < is.length → s.first ≤ s.last →
+      (∀ i, i < s.first → is.getD i 0 < x) → (∀ i, s.last < i → i < is.length → x < is.getD i 0) →
+      s.last + 1 - s.first ≤ fuel →
+      BSGood is x (bsFinish is.length x (bsLoop is x fuel s)) := by
+  intro fuel
+  induction fuel with
+  | zero => intro s _ _ hfl _ _ hfuel; omega
+  | succ fuel ih =>
+    intro s hfi hlast hfl hlo hhi hfuel
+    have hcur : s.first + (s.last - s.first) / 2 ≤ s.last := by omega
+    have hcur' : s.first ≤ s.first + (s.last - s.first) / 2 := by omega
+    generalize hc : s.first + (s.last - s.first) / 2 = current at hcur hcur'
+    have hcn : current < is.length := by omega
+    simp only [bsLoop, hfl, if_true, hc]
+    by_cases h1 : x < is.getD current 0
+    · simp only [h1, if_true]
+      by_cases h0 : current = 0
+      · -- break at the very first element: insert at the front
+        subst h0
+        have hf0 : s.first = 0 := by omega
+        simp only [if_true, bsFinish]
+        have hne : x ≠ is.getD 0 0 := by omega
+        have hnl : ¬ is.getD 0 0 < x := by omega
+        have hn0 : ¬ (0 = is.length ∨ s.first = is.length) := by omega
+        simp only [ne_eq, hne, not_false_eq_true, if_true, hn0, if_false, hnl]
+        refine Or.inr ⟨hfi, Nat.zero_le _, fun i hi => absurd hi (Nat.not_lt_zero _), fun i _ hil => ?_⟩
+        exact Nat.lt_of_lt_of_le h1 (getD_le_of_sorted is hs (Nat.zero_le i) hil)
+      · simp only [h0, if_false]
+        have hhi' : ∀ i, current - 1 < i → i < is.length → x < is.getD i 0 := fun i hi hil =>
+          Nat.lt_of_lt_of_le h1 (getD_le_of_sorted is hs (by omega) hil)
+        by_cases hgo : s.first ≤ current - 1
+        · exact ih ⟨s.first, current - 1, current, is.getD current 0, s.fInsert⟩ hfi (by dsimp only; omega) hgo hlo hhi'
+            (by dsimp only; omega)
+        · rw [bsLoop_done _ _ _ _ (by simpa using hgo)]
+          have hfc : s.first = current := by omega
+          simp only [bsFinish]
+          have hne : x ≠ is.getD current 0 := by omega
+          have hnl : ¬ is.getD current 0 < x := by omega
+          have hn0 : ¬ (current = is.length ∨ s.first = is.length) := by omega
+          simp only [ne_eq, hne, not_false_eq_true, if_true, hn0, if_false, hnl]
+          refine Or.inr ⟨hfi, by omega, fun i hi => hlo i (by omega), fun i hi hil => ?_⟩
+          exact Nat.lt_of_lt_of_le h1 (getD_le_of_sorted is hs hi hil)
+    · simp only [h1, if_false]
+      by_cases h2 : x > is.getD current 0
+      · simp only [h2, if_true]
+        have hlo' : ∀ i, i < current + 1 → is.getD i 0 < x := fun i hi =>
+          Nat.lt_of_le_of_lt (getD_le_of_sorted is hs (by omega) hcn) h2
+        by_cases hgo : current + 1 ≤ s.last
+        · exact ih ⟨current + 1, s.last, current, is.getD current 0, s.fInsert⟩ hfi hlast hgo hlo' hhi
+            (by dsimp only; omega)
+        · rw [bsLoop_done _ _ _ _ (by simpa using hgo)]
+          have hcl : current = s.last := by omega
+          simp only [bsFinish]
+          have hne : x ≠ is.getD current 0 := by omega
+          simp only [ne_eq, hne, not_false_eq_true, if_true]
+          by_cases hend : current = is.length ∨ current + 1 = is.length
+          · simp only [hend, if_true]
+            have : current + 1 = is.length := by omega
+            exact Or.inr ⟨hfi, Nat.le_refl _, fun i hi => hlo' i (by omega), fun i hi hil => by omega⟩
+          · simp only [hend, if_false, h2, if_true]
+            exact Or.inr ⟨hfi, by omega, hlo', fun i hi hil => hhi i (by omega) hil⟩
+      · -- found
+        have heq : is.getD current 0 = x := by omega
+        rw [if_neg h2]
+        simp only [bsFinish, heq, ne_eq, not_true_eq_false, if_false]
+        refine Or.inl ⟨rfl, ?_⟩
+        rw [← heq, ← List.getElem_eq_getD (h := hcn) 0]
+        exact List.getElem_mem _
+
+theorem findInsertionPoint_good (is : List Nat) (hs : is.Pairwise (· < ·)) (hne : is ≠ []) (x : Nat) :
+    BSGood is x (findInsertionPointBinarySearch is x) := by
+  have hn : 0 < is.length := List.length_pos_iff.mpr hne
+  unfold findInsertionPointBinarySearch
+  by_cases hq : is.getD (is.length - 1) 0 < x
+  · simp only [hq, if_true]
+    refine Or.inr ⟨rfl, Nat.le_refl _, fun i hi => ?_, fun i hi hil => by omega⟩
+    exact Nat.lt_of_le_of_lt (getD_le_of_sorted is hs (by omega) (by omega)) hq
+  · simp only [hq, if_false]
+    exact bsLoop_good is hs x (is.length + 1) ⟨0, is.length - 1, is.length, 0, true⟩ rfl (by dsimp only; omega)
+      (by dsimp only; omega) (fun i hi => absurd hi (Nat.not_lt_zero _)) (fun i hi hil => by dsimp only at hi; omega)
+      (by dsimp only; omega)
+
+theorem insertAtPos_eq_insertInOrder (idx : ν → Nat) (n : ν) :
+    ∀ (l : List ν) (p : Nat), IsPos (l.map idx) (idx n) p → insertAtPos l p n = insertInOrder idx n l := by
+  intro l
+  induction l with
+  | nil =>
+    intro p hp
+    have : p = 0 := by have := hp.1; simpa using this
+    subst this; simp [insertAtPos, insertInOrder]
+  | cons c cs ih =>
+    intro p hp
+    cases p with
+    | zero =>
+      have := hp.2.2 0 (Nat.le_refl _) (by simp)
+      simp at this
+      have h1 : ¬ idx c = idx n := by omega
+      have h2 : ¬ idx n > idx c := by omega
+      simp [insertAtPos, insertInOrder, h1, h2]
+    | succ p =>
+      have := hp.2.1 0 (by omega)
+      simp at this
+      have h1 : ¬ idx c = idx n := by omega
+      have h2 : idx n > idx c := this
+      have hp' : IsPos (cs.map idx) (idx n) p := by
+        refine ⟨by have := hp.1; simp at this; simpa using this, fun i hi => ?_, fun i hi hil => ?_⟩
+        · have := hp.2.1 (i + 1) (by omega); simpa using this
+        · have := hp.2.2 (i + 1) (by omega) (by simpa using hil); simpa using this
+      have := ih p hp'
+      simp only [insertAtPos] at this ⊢
+      simp [insertInOrder, h1, h2, ← this]
+
+theorem insertInOrder_of_mem (idx : ν → Nat) (n : ν) :
+    ∀ (l : List ν), l.Pairwise (fun a b => idx a < idx b) → idx n ∈ l.map idx → insertInOrder idx n l = l := by
+  intro l
+  induction l with
+  | nil => intro _ h; simp at h
+  | cons c cs ih =>
+    intro hp hm
+    by_cases hc : idx c = idx n
+    · simp [insertInOrder, hc]
+    · rw [List.pairwise_cons] at hp
+      have hm' : idx n ∈ cs.map idx := by
+        simp only [List.map_cons, List.mem_cons] at hm
+        rcases hm with h | h
+        · exact absurd h.symm hc
+        · exact h
+      obtain ⟨d, hd, hdn⟩ := List.mem_map.mp hm'
+      have := hp.1 d hd
+      have h2 : idx n > idx c := by omega
+      simp [insertInOrder, hc, h2, ih hp.2 hm']
+
+/-- **binary search = linear search** on a non-empty document-ordered list -/
+theorem binarySearch_eq_linear (idx : ν → Nat) (n : ν) (l : List ν) (hp : l.Pairwise (fun a b => idx a < idx b))
+    (hne : l ≠ []) :
+    (let r := findInsertionPointBinarySearch (l.map idx) (idx n)
+     if r.1 then insertAtPos l r.2 n else l) = insertInOrder idx n l := by
+  have hs : (l.map idx).Pairwise (· < ·) := by
+    rw [List.pairwise_map]; exact hp
+  have := findInsertionPoint_good (l.map idx) hs (by simpa using hne) (idx n)
+  rcases this with ⟨hf, hm⟩ | ⟨ht, hpos⟩
+  · simp only [hf, Bool.false_eq_true, if_false]
+    exact (insertInOrder_of_mem idx n l hp hm).symm
+  · simp only [ht, if_true]
+    exact insertAtPos_eq_insertInOrder idx n l _ hpos
+
 theorem addNode_eq_insert (idx : ν → Nat) (isDoc : ν → Bool) (n : ν) (l : List ν)
     (hp : l.Pairwise (fun a b => idx a < idx b)) (hd : isDoc n = true → ∀ c ∈ l, idx n ≤ idx c) :
     addNodeInDocOrder idx isDoc n l = insertInOrder idx n l := by
@@ -149,7 +322,10 @@ theorem addNode_eq_insert (idx : ν → Nat) (isDoc : ν → Bool) (n : ν) (l :
     by_cases he : idx last = idx n
     · simp [he, insertInOrder_last idx n l last hp hl he]
     · cases hdn : isDoc n with
-      | false => simp [he]
+      | false =>
+        have hne : l ≠ [] := by intro h; subst h; simp at hl
+        simp only [he, if_false, Bool.false_eq_true]
+        exact binarySearch_eq_linear idx n l hp hne
       | true =>
         simp only [he, if_false, if_true]
         cases l with
@@ -185,7 +361,18 @@ theorem addNode_append (idx : ν → Nat) (isDoc : ν → Bool) (n : ν) (l : Li
     have := hl last hlm
     have h1 : ¬ idx last = idx n := by omega
     cases hdn : isDoc n
-    · simp [h1, hins l hl]
+    · -- the quick check "just append" of findInsertionPointBinarySearch
+      have hlen : 0 < l.length := List.length_pos_of_mem hlm
+      have hq : (l.map idx).getD ((l.map idx).length - 1) 0 < idx n := by
+        have hi : (l.map idx).length - 1 < (l.map idx).length := by simp; omega
+        rw [← List.getElem_eq_getD (h := hi) 0]
+        have hm := List.getElem_mem hi
+        obtain ⟨c, hc, hcn⟩ := List.mem_map.mp hm
+        rw [← hcn]; exact hl c hc
+      simp only [h1, if_false, Bool.false_eq_true]
+      unfold findInsertionPointBinarySearch
+      simp only [hq, if_true]
+      simp [insertAtPos]
     · -- a document node is before every node: the list would have to be empty
       have := hd hdn last hlm
       omega
